@@ -384,6 +384,10 @@ func genYTree(t *rapid.T, depth int) JNode {
 	case k < 9:
 		return JNode{K: "num", Num: strconv.Itoa(rapid.IntRange(0, 999).Draw(t, "ynum"))}
 	default:
+		if rapid.IntRange(0, 2).Draw(t, "ynull") == 0 {
+			// a null: spelled `null`, `~` or left out (a bare key as templates render unset values); S carries the spelling
+			return JNode{K: "null", S: rapid.SampledFrom([]string{"null", "~", ""}).Draw(t, "ynullspelling")}
+		}
 		return JNode{K: "bool", B: rapid.Bool().Draw(t, "yb")}
 	}
 }
@@ -455,6 +459,13 @@ func yamlScalar(n JNode) string {
 		return "{}"
 	case "arr":
 		return "[]"
+	case "null":
+		if n.S == "~" {
+			return "~"
+		}
+		if n.S == "" {
+			return "" // bare key / bare sequence item
+		}
 	}
 	return "null"
 }
@@ -1542,9 +1553,17 @@ func genC17(t *rapid.T) c17Case {
 	}
 	var used [][]pathComp
 	n := rapid.IntRange(1, 5).Draw(t, "nmatchers")
+	// a dozen guarded paths failing at once (the parent key was renamed): every one of them must be named
+	manyFail := rapid.IntRange(0, 9).Draw(t, "manyfail") == 0
+	if manyFail {
+		n = rapid.IntRange(11, 14).Draw(t, "nmany")
+	}
 	for i := 0; i < n; i++ {
 		m := c17Matcher{}
 		kind := rapid.IntRange(0, 11).Draw(t, "mk")
+		if manyFail && i < n-1 {
+			kind = 0
+		}
 		comps, ok := genExistingPath(t, c.Tree, true)
 		if ok {
 			for _, u := range used {
@@ -1589,7 +1608,7 @@ func genC17(t *rapid.T) c17Case {
 			}
 			m.Spec = MatcherSpec{Kind: which, Paths: []string{mp}, TypeName: "string", Return: json.RawMessage(`"r"`)}
 			m.Failing = true
-			if rapid.Bool().Draw(t, "tolerant") {
+			if !manyFail && rapid.Bool().Draw(t, "tolerant") {
 				m.Spec.ErrMissing = boolp(false)
 				m.Failing, m.Ignored = false, true
 			} else if rapid.Bool().Draw(t, "explicit") {
@@ -1598,7 +1617,7 @@ func genC17(t *rapid.T) c17Case {
 			if m.Spec.ErrMissing != nil {
 				m.Spec.Stmt = rapid.Bool().Draw(t, "stmtform")
 			}
-		case kind < 4 && !(yamlDoc && (node.K == "num" || node.K == "null")): // wrong type (an existing null is not a string either)
+		case kind < 4 && !(yamlDoc && node.K == "num"): // wrong type (an existing null is not a string either, in JSON and in YAML)
 			m.Spec = MatcherSpec{Kind: "type", Paths: []string{path}, TypeName: wrongType(node, yamlDoc)}
 			if rapid.Bool().Draw(t, "tolerantflag") {
 				m.Spec.ErrMissing = boolp(false) // irrelevant: the path exists
@@ -1849,6 +1868,9 @@ func classifyC17(c c17Case) ([]string, bool) {
 	nt := (failing >= 1 && sat >= 1) || c.ModeKind == "update_existing" || ignored > 0
 	if failing >= 2 {
 		cls = append(cls, "two_or_more_failing")
+	}
+	if failing > 10 {
+		cls = append(cls, "more_than_ten_failing")
 	}
 	if failing == 0 {
 		cls = append(cls, "no_failing_matcher")
